@@ -259,6 +259,12 @@ def _run_neighbors(job):
                     z3.And(*[adj[v] if v in adj else z3.BoolVal(False) for v in got]) if got else z3.BoolVal(True)))
         missing = [b for v, b in adj.items() if v not in got]
         obs.append(("no connected neighbour is missing", z3.Not(z3.Or(*missing)) if missing else z3.BoolVal(True)))
+        # no cross-talk between mazes: the same query on a different maze of a different shape, then again on this one
+        other = LatticeMaze(connection_list=np.ones((2, c + 1, r + 2), dtype=bool))
+        other.get_coord_neighbors(np.array(cell))
+        other.coord_degrees()
+        nb2 = LatticeMaze(connection_list=cl).get_coord_neighbors(np.array(cell))
+        obs.append(("the same query after querying a different maze gives the same neighbours", z3.BoolVal((py_path(nb2) if len(nb2) else []) == got)))
         return obs
 
     return run
@@ -275,6 +281,12 @@ def _replay_neighbors(job, inputs, notes):
                  if 0 <= v[0] < r and 0 <= v[1] < c and _real_conn(cl, cell, v))
     if got != exp:
         return f"get_coord_neighbors-wrong | cell {cell}: got {got} expected {exp}, connection_list={cl.astype(int).tolist()}"
+    other = LatticeMaze(connection_list=np.ones((2, c + 1, r + 2), dtype=bool))
+    other.get_coord_neighbors(np.array(cell))
+    other.coord_degrees()
+    again = sorted(tuple(int(x) for x in row) for row in LatticeMaze(connection_list=cl).get_coord_neighbors(np.array(cell)))
+    if again != exp:
+        return f"get_coord_neighbors-depends-on-history | cell {cell}: {again} after querying another maze, expected {exp}"
     return None
 
 
